@@ -214,6 +214,7 @@ func runC03(c *Ctx) {
 
 	// ---- R3.2 decision table
 	checkWinnerTable(c, sp, fd)
+	checkJoinedKeys(c, fd)
 
 	// ---- R3.3
 	checkLiteralEscapes(c)
@@ -1216,4 +1217,68 @@ func checkAppendedAutomata(c *Ctx, fn *ssa.Function, combine *ssa.Call, isDefs f
 		fmt.Sprintf("of %d paths through one iteration of the loop over the definitions, %d append no automaton without recording an error and %d append more than one: the automata no longer line up with s.Definitions, and the final states CombineDFA reports for automaton i are attributed to the wrong definition", paths, r.none, r.many),
 		"a definition that takes the contribution-free path (e.g. a pattern with an empty language such as /\\p{Lt}/) placed before another one")
 	return true
+}
+
+
+// checkJoinedKeys (R3.5): in the function that attributes the accepting states, a map must not be keyed by names joined into one
+// string. A terminal's name is the text of a string literal, which may contain any separator, so two different sets of definitions
+// can have one key ("if,ID" alone and {"if", ID}); the decision taken for the first is then applied to the other.
+func checkJoinedKeys(c *Ctx, fd *ast.FuncDecl) {
+	p := c.Pkg("internal/ebnf/parser/spec")
+	info := p.TypesInfo
+	joined := map[types.Object]token.Pos{}
+	seps := map[types.Object]string{}
+	n := 0
+	deepInspect(p, fd, 2, func(nd ast.Node) bool {
+		as, ok := nd.(*ast.AssignStmt)
+		if !ok || len(as.Lhs) != 1 || len(as.Rhs) != 1 {
+			return true
+		}
+		call, ok := ast.Unparen(as.Rhs[0]).(*ast.CallExpr)
+		if !ok {
+			return true
+		}
+		fo, ok := objOf(info, call.Fun).(*types.Func)
+		if !ok || fo.Pkg() == nil || fo.Pkg().Path() != "strings" || fo.Name() != "Join" || len(call.Args) != 2 {
+			return true
+		}
+		if id, ok := as.Lhs[0].(*ast.Ident); ok {
+			o := info.Defs[id]
+			if o == nil {
+				o = info.Uses[id]
+			}
+			if o != nil {
+				joined[o] = as.Pos()
+				seps[o], _ = constStr(info, call.Args[1])
+			}
+		}
+		return true
+	})
+	bad := token.NoPos
+	sep := ""
+	deepInspect(p, fd, 2, func(nd ast.Node) bool {
+		ix, ok := nd.(*ast.IndexExpr)
+		if !ok {
+			return true
+		}
+		if t := info.TypeOf(ix.X); t == nil {
+			return true
+		} else if _, isMap := t.Underlying().(*types.Map); !isMap {
+			return true
+		}
+		n++
+		if id, ok := ast.Unparen(ix.Index).(*ast.Ident); ok {
+			if pos, isJoined := joined[info.Uses[id]]; isJoined {
+				bad, sep = pos, seps[info.Uses[id]]
+			}
+		}
+		return true
+	})
+	key := "sets of definitions are not identified by their joined names"
+	if bad != token.NoPos {
+		c.Fail("R3.1", key, bad, fmt.Sprintf("a map is keyed by names joined with %q: the name of a literal is its text and may contain that separator, so two different sets of definitions share one key and the accepting states of one are attributed by the decision taken for the other", sep),
+			`"if"  ID = /[a-z]+/  "if,ID": the accepting state of the literal "if,ID" goes to the terminal "if"`)
+		return
+	}
+	c.Pass("R3.1", key, fd.Pos(), fmt.Sprintf("%d map accesses, none keyed by a joined string", n))
 }
